@@ -1,6 +1,6 @@
 (* C05 - when a connection dies every caller is released with an error (I/O-thread side).
    This file only pins statements. *)
-From Amq Require Import Lib.Base Gen.Consts Model.Wire Model.Frames Model.OutBuf Model.Collector Model.Slots Model.Core Spec.Slots Spec.Content Proofs.Slots Proofs.OutBuf Proofs.Collector Proofs.CoreContent Proofs.CoreInv Proofs.CoreMore Check.Core Proofs.Examples Model.Handle Proofs.Handle Model.Sys Proofs.Sys Model.Close Proofs.Close Lib.RsVal Gen.SrcHandle Proofs.HandleSrc Gen.SrcException Proofs.ExceptionSrc Gen.SrcClose Proofs.CloseSrc.
+From Amq Require Import Lib.Base Gen.Consts Model.Wire Model.Frames Model.OutBuf Model.Collector Model.Slots Model.Core Spec.Slots Spec.Content Proofs.Slots Proofs.OutBuf Proofs.Collector Proofs.CoreContent Proofs.CoreInv Proofs.CoreMore Check.Core Proofs.Examples Model.Handle Proofs.Handle Model.Sys Proofs.Sys Model.Close Proofs.Close Lib.RsVal Gen.SrcHandle Proofs.HandleSrc Gen.SrcException Proofs.ExceptionSrc Gen.SrcClose Proofs.CloseSrc Gen.SrcHbPass Proofs.HbPassSrc.
 
 (* a read that ends in EOF / an I/O error / an unparsable frame after frames that were all processed: the event's outcome is the error that names it (unless the close handshake had completed) *)
 Theorem C05_fatal_read : forall (c : core) (fs : list dframe) (t : rterm) (c2 : core), process_all c fs = (OOk, c2) -> is_client_closed c2 = false -> fst (fst (handle_event c (EvStream None (Some (fs, t))))) = term_outcome t.
@@ -47,7 +47,7 @@ Theorem C05_system_dead_releases : forall (answer : N -> N -> N) (bound qcap : N
 Proof. exact sys_dead_releases. Qed.
 
 (* ... and whenever it ends, what the calls returned before is still exactly the server's replies to that channel's own requests, in order; a caller is marked failed only after the I/O thread has ended or the server has closed its channel *)
-Theorem C05_system_own_reply : forall (answer : N -> N -> N) (bound qcap : N) (progs : N -> list call), 2 <= qcap -> forall sched : list act, let s := yrun answer bound qcap (init_sys progs) sched in y_fail s = false /\ (forall n : N, let c := y_ch s n in yc_results c = map (answer n) (firstn (Datatypes.length (yc_results c)) (syncs (yc_issued c))) /\ (yc_srv_closed c = false -> yc_wait c = false -> yc_failed c = false -> yc_results c = map (answer n) (syncs (yc_issued c))) /\ (yc_srv_closed c = false -> yc_wait c = true -> exists r : N, syncs (yc_issued c) = (firstn (Datatypes.length (yc_results c)) (syncs (yc_issued c)) ++ [r])%list /\ inflight answer s n = [answer n r]) /\ (Datatypes.length (yc_replyq c) <= 2)%nat /\ (yc_issued c ++ yc_prog c)%list = progs n /\ (yc_failed c = true -> y_dead s = true \/ yc_srv_closed c = true)).
+Theorem C05_system_own_reply : forall (answer : N -> N -> N) (bound qcap : N) (progs : N -> list call), 2 <= qcap -> forall sched : list act, let s := yrun answer bound qcap (init_sys progs) sched in y_fail s = false /\ (forall n : N, let c := y_ch s n in yc_results c = map (answer n) (firstn (Datatypes.length (yc_results c)) (syncs (yc_issued c))) /\ (yc_srv_closed c = false -> yc_wait c = false -> yc_failed c = false -> yc_results c = map (answer n) (syncs (yc_issued c))) /\ (yc_srv_closed c = false -> yc_wait c = true -> exists r : N, syncs (yc_issued c) = firstn (Datatypes.length (yc_results c)) (syncs (yc_issued c)) ++ [r] /\ inflight answer s n = [answer n r]) /\ (Datatypes.length (yc_replyq c) <= 2)%nat /\ yc_issued c ++ yc_prog c = progs n /\ (yc_failed c = true -> y_dead s = true \/ yc_srv_closed c = true)).
 Proof. exact sys_own_reply. Qed.
 
 (* the caller's side of Connection::close (close_impl, Model/Close.v): whatever the close request on channel 0 itself returned (Ok, EventLoopDropped because the slot was dropped, the verdict left in the reply queue), an error the I/O thread ended with is what close() returns - the root cause, not a consequence of it *)
@@ -67,8 +67,12 @@ Theorem C05_client_exception_source_is_model : forall (self code : val) (s : lis
 Proof. exact client_exception_source_is_model. Qed.
 
 (* THE MODEL IS THE SOURCE: Connection::close_impl of src/connection.rs as translated from the source text on every run (Gen/SrcClose.v) is the model's close_impl C05_close_reports_root_cause is about: the close request goes out first, the I/O thread is joined, a panic of the thread is IoThreadPanic, an error the thread ended with takes precedence over what the request returned, a second call does nothing *)
-Theorem C05_close_source_is_model : forall (have : bool) (req : req_res) (io : io_end), gen_Connection_close_impl (ext_st_model req io) (enc_self have false) = (enc_self false (snd (close_impl have req io)), enc_res (fst (close_impl have req io))).
+Theorem C05_close_source_is_model : forall (have : bool) (req : req_res) (io : io_end), gen_Connection_close_impl (CloseSrc.ext_st_model req io) (CloseSrc.enc_self have false) = (CloseSrc.enc_self false (snd (close_impl have req io)), enc_res (fst (close_impl have req io))).
 Proof. exact close_source_is_model. Qed.
+
+(* THE MODEL IS THE SOURCE: Inner::process_heartbeat_timers as translated from src/io_loop/mod.rs on every run (Gen/SrcHbPass.v) is Model/Core.v's heartbeat_timers - the function C05_missed_heartbeats (the fatal MissedServerHeartbeats) is about - for every sequence of timer entries and every out-buffer *)
+Theorem C05_pass_source_is_model : forall (fired : list (hbkind * bool)) (c : core), gen_Inner_process_heartbeat_timers ext_st_model (S (Datatypes.length fired)) (enc_self fired (c_out c)) = (enc_self (hb_rest fired) (c_out (snd (heartbeat_timers fired c))), enc_outcome (fst (heartbeat_timers fired c))).
+Proof. exact pass_source_is_model. Qed.
 
 (* non-vacuity of C05_releases_*: in a reachable state with two channels and a consumer on
    each, every queue has a live sender; after the thread's state is dropped none has *)
@@ -102,12 +106,13 @@ Check C05_dead_thread_never_blocks : forall (c : hcall) (s : hstate), h_reply_tx
 Check C05_blocks_only_waiting : forall (c : hcall) (s : hstate), hstep c s = None -> h_reply_tx s = true /\ h_replies s = [].
 Check C05_verdict_reported : forall (c : hcall) (e : N) (rest : list hitem) (s : hstate), c <> CNowait \/ h_mail_rx s = false -> h_replies s = HErr e :: rest -> exists s' : hstate, hstep c s = Some (RErrItem e, s') /\ h_replies s' = rest.
 Check C05_system_dead_releases : forall (answer : N -> N -> N) (bound qcap : N) (progs : N -> list call), 2 <= qcap -> forall (sched : list act) (n : N), let s := yrun answer bound qcap (init_sys progs) sched in y_dead s = true \/ yc_slot_gone (y_ch s n) = true -> yc_wait (y_ch (ystep answer bound qcap s (ARecv n)) n) = false /\ yc_wait (y_ch (ystep answer bound qcap s (ASend n)) n) = yc_wait (y_ch s n) /\ (yc_wait (y_ch s n) = false -> yc_failed (y_ch s n) = false -> yc_prog (y_ch s n) <> [] -> yc_failed (y_ch (ystep answer bound qcap s (ASend n)) n) = true /\ yc_mail (y_ch (ystep answer bound qcap s (ASend n)) n) = yc_mail (y_ch s n)).
-Check C05_system_own_reply : forall (answer : N -> N -> N) (bound qcap : N) (progs : N -> list call), 2 <= qcap -> forall sched : list act, let s := yrun answer bound qcap (init_sys progs) sched in y_fail s = false /\ (forall n : N, let c := y_ch s n in yc_results c = map (answer n) (firstn (Datatypes.length (yc_results c)) (syncs (yc_issued c))) /\ (yc_srv_closed c = false -> yc_wait c = false -> yc_failed c = false -> yc_results c = map (answer n) (syncs (yc_issued c))) /\ (yc_srv_closed c = false -> yc_wait c = true -> exists r : N, syncs (yc_issued c) = (firstn (Datatypes.length (yc_results c)) (syncs (yc_issued c)) ++ [r])%list /\ inflight answer s n = [answer n r]) /\ (Datatypes.length (yc_replyq c) <= 2)%nat /\ (yc_issued c ++ yc_prog c)%list = progs n /\ (yc_failed c = true -> y_dead s = true \/ yc_srv_closed c = true)).
+Check C05_system_own_reply : forall (answer : N -> N -> N) (bound qcap : N) (progs : N -> list call), 2 <= qcap -> forall sched : list act, let s := yrun answer bound qcap (init_sys progs) sched in y_fail s = false /\ (forall n : N, let c := y_ch s n in yc_results c = map (answer n) (firstn (Datatypes.length (yc_results c)) (syncs (yc_issued c))) /\ (yc_srv_closed c = false -> yc_wait c = false -> yc_failed c = false -> yc_results c = map (answer n) (syncs (yc_issued c))) /\ (yc_srv_closed c = false -> yc_wait c = true -> exists r : N, syncs (yc_issued c) = firstn (Datatypes.length (yc_results c)) (syncs (yc_issued c)) ++ [r] /\ inflight answer s n = [answer n r]) /\ (Datatypes.length (yc_replyq c) <= 2)%nat /\ yc_issued c ++ yc_prog c = progs n /\ (yc_failed c = true -> y_dead s = true \/ yc_srv_closed c = true)).
 Check C05_close_reports_root_cause : forall (req : req_res) (e : N), fst (close_impl true req (IoErr e)) = CErr e.
 Check C05_close_ok_iff : forall (req : req_res) (io : io_end), fst (close_impl true req io) = COk <-> io = IoOk /\ req = ReqOk.
 Check C05_call_source_is_model : forall (c : hcall) (s : hstate) (r : hres) (s' : hstate) (arg : val), hstep c s = Some (r, s') -> gen_call c (enc_state s) arg = (enc_state s', HandleSrc.enc_res c r).
 Check C05_client_exception_source_is_model : forall (self code : val) (s : list N) (log : list val), (forall b : N, nth_error s 0 = Some b -> is_cont b = false) -> gen_ConnectionState_client_exception ext_model 257 self (VC "effects" log) code (VBytes s) = finish code (trunc255 s) log.
-Check C05_close_source_is_model : forall (have : bool) (req : req_res) (io : io_end), gen_Connection_close_impl (ext_st_model req io) (enc_self have false) = (enc_self false (snd (close_impl have req io)), enc_res (fst (close_impl have req io))).
+Check C05_close_source_is_model : forall (have : bool) (req : req_res) (io : io_end), gen_Connection_close_impl (CloseSrc.ext_st_model req io) (CloseSrc.enc_self have false) = (CloseSrc.enc_self false (snd (close_impl have req io)), enc_res (fst (close_impl have req io))).
+Check C05_pass_source_is_model : forall (fired : list (hbkind * bool)) (c : core), gen_Inner_process_heartbeat_timers ext_st_model (S (Datatypes.length fired)) (enc_self fired (c_out c)) = (enc_self (hb_rest fired) (c_out (snd (heartbeat_timers fired c))), enc_outcome (fst (heartbeat_timers fired c))).
 
 Print Assumptions C05_fatal_read.
 Print Assumptions C05_fatal_outcomes.
@@ -126,5 +131,6 @@ Print Assumptions C05_close_ok_iff.
 Print Assumptions C05_call_source_is_model.
 Print Assumptions C05_client_exception_source_is_model.
 Print Assumptions C05_close_source_is_model.
+Print Assumptions C05_pass_source_is_model.
 Print Assumptions C05_example.
 Print Assumptions C05_system_example.
